@@ -121,7 +121,7 @@ func cmdCheck(argv []string) int {
 	tier := fs.String("tier", "", "quick|thorough")
 	strict := fs.Bool("strict", false, "exit 3 on unexplored/vacuous configurations")
 	workers := fs.Int("workers", 16, "parallel workers")
-	solver := fs.String("solver", "z3", "solver")
+	solver := fs.String("solver", "z3-new", "solver")
 	filter := fs.String("filter", "", "only configurations whose id contains this")
 	verbose := fs.Bool("v", false, "progress output")
 	timeout := fs.Int("timeout", 0, "per-query timeout (ms)")
@@ -168,5 +168,5 @@ func cmdTmplCheck() int {
 			}
 			return out
 		}})
-	return runCheck("T00", checkOpts{tier: "quick", workers: 16, solver: "z3", timeout: 10000, cfgTimeout: 60})
+	return runCheck("T00", checkOpts{tier: "quick", workers: 16, solver: "z3-new", timeout: 10000, cfgTimeout: 60})
 }
